@@ -135,7 +135,15 @@ def _varimax(
     X = X.copy()
     n_samples, n_modes = X.shape
 
-    if isinstance(X, DaskArray):
+    if isinstance(X, DaskArray) and np.iscomplexobj(X):
+        # svd_compressed is not valid for complex input (dask issue 7639); the matrix
+        # to decompose is only (n_modes x n_modes), so use the exact SVD on one chunk
+
+        def svd_func(a):
+            return np.linalg.svd(a.rechunk(-1))
+
+        svd_args = ()
+    elif isinstance(X, DaskArray):
         # Use svd_compressed if dask to allow chunking in both dimensions
         svd_func = svd_compressed
         svd_args = (n_modes,)
